@@ -2,14 +2,42 @@
 
 // Contracts for package safemap, checked by /verif/hv (comment-only file;
 // compiled only with the build tag "verif", contains no code).
+// SafeMap is verified in lock-invariant mode: every access to data happens
+// under mu, and every critical section is one atomic transition of the map
+// (old(...) = the map when the lock was acquired).
 
 package safemap
 
-//@ func (*SafeMap).Len()
-//@   trusted
+//@ guarded SafeMap(s) by mu footprint s.data, mapof(s.data)
+//@ lockinv[C08.safemap.inv] s.data != nil
+
+//@ func New()
+//@   props C08
+//@   constructs
 //@   modifies
-//@   ensures result >= 0
+//@   ensures[C08.safemap.new] result != nil && fresh(result) && result.data != nil && len(result.data) == 0
+
+//@ func (*SafeMap).Set(k, v)
+//@   props C08
+//@   requires s != nil
+//@   modifies mapof(s.data)
+//@   atunlock[C08.safemap.set] has(s.data, k) && s.data[k] == v
+//@   atunlock[C08.safemap.set-others-unchanged] forallS("TP$K", q, q != k ==> has(s.data, q) == old(has(s.data, q)) && s.data[q] == old(s.data[q]))
+
+//@ func (*SafeMap).Get(k)
+//@   props C08
+//@   requires s != nil
+//@   modifies
+//@   ensures[C08.safemap.get] result1 == old(has(s.data, k)) && (result1 ==> result0 == old(s.data[k]))
 
 //@ func (*SafeMap).Delete(k)
-//@   trusted
+//@   props C08
+//@   requires s != nil
 //@   modifies mapof(s.data)
+//@   atunlock[C08.safemap.delete] !has(s.data, k) && forallS("TP$K", q, q != k ==> has(s.data, q) == old(has(s.data, q)) && s.data[q] == old(s.data[q]))
+
+//@ func (*SafeMap).Len()
+//@   props C08
+//@   requires s != nil
+//@   modifies
+//@   ensures[C08.safemap.len] result == old(len(s.data)) && result >= 0
